@@ -263,12 +263,18 @@ func (c *Check) contextFieldRules(prefix string, which map[string]bool) {
 				_, issue := w.W["BatchCounter"]
 				okv := false
 				d := ""
-				if w.Fn == u.BS {
+				issuesRequests := w.Fn == u.BS
+				for _, e := range c.P.SummaryOf(w.Fn).Effs {
+					if e.Kind == "store" && e.Op == "Set" && e.Family == "0x13" {
+						issuesRequests = true
+					}
+				}
+				if issuesRequests {
 					// the number of providers the loop issues to
-					okv = v.Op == "conv" && v.A[1].Op == "len" && isParamTerm(v.A[1].A[0]) && isAddrSlice(v.A[1].A[0].Typ)
+					okv = v.Op == "conv" && len(v.A) == 2 && v.A[1].Op == "len" && len(v.A[1].A) == 1 && isParamTerm(v.A[1].A[0]) && isAddrSlice(v.A[1].A[0].Typ)
 					d = "BatchRequestCount = len(issued provider list): " + shortTerm(v)
 				} else {
-					okv = issue && (v.IsAt("#0") || v.IsAt("zero"))
+					okv = issue && (stripConv(v).IsAt("#0") || v.IsAt("zero"))
 					d = "a skipped batch records 0 requests: " + shortTerm(v)
 				}
 				put(prefix+".counts", unitConstruct(w.Fn, "BatchRequestCount"), okv, d, pos)
@@ -372,7 +378,8 @@ func (c *Check) helperCallSites(prefix string, pff *Func, u *feeUnits) {
 				}
 				n++
 				ok := false
-				if f == u.NB.Closure {
+				// the handler itself, or the function the handler has handed its decisions to (walked in place there)
+				if f == u.NB.Closure || c.P.forceSplice[u.NB.Closure][f] {
 					for _, fa := range pa.FactsBefore(i) {
 						if fa.Neg && fa.T.Op == "ok" {
 							// the failed call is the escrow credit
